@@ -2,6 +2,8 @@ import Driver.Common
 import Driver.C18
 import Driver.Life
 import Driver.C09
+import Driver.C09Pure
+import Driver.CallRace
 import Driver.Boxing
 import Driver.C08
 import Driver.SpawnClean
@@ -35,6 +37,8 @@ def main (args : List String) : IO UInt32 := do
       | "life-residue" => Driver.LifeDrv.run .residue ops impl
       | "life-c02" => Driver.LifeDrv.run .c02 ops impl
       | "c09" => Driver.C09.run ops impl
+      | "c09pure" => Driver.C09Pure.run ops impl
+      | "c09race" => Driver.CallRaceD.run ops impl
       | "c02-rpc" => Driver.C09.runC02 ops impl
       | "c02-box" => Driver.BoxingD.run ops impl
       | "c08" => Driver.C08.run ops impl
